@@ -52,15 +52,19 @@ CLAIMED["C08"] = dict(engine="e3+yast",
     technique="type-checker witnesses over generated hierarchies and list presentations; AST rule on augment_classes",
     text="Decides the compile-time half: for seeded random hierarchies (chains, trees, forests, DAGs with virtual bases, 2-8 classes) and list "
          "presentations (full, permuted, subsets, nested groups, macro forms, default policy) use_classes/class_declaration produce exactly the "
-         "registration records 'class with the listed classes that are its bases, in list order'. Does not decide the run-time merge of records "
-         "(de-duplication, weight sort, direct-base extraction, covariant closure, lattice slot reservation) for partial base lists.",
+         "registration records 'class with the listed classes that are its bases, in list order'. Of the run-time half it decides structural steps "
+         "only: every listed base of every record is recorded, the weight is the size of the duplicate-free list (typestate of the two lists), "
+         "'acceptable where expected' is answered from the covariant closure in all consumers, slot reservation covers bases and covariant classes, "
+         "the decoder consumes one table per class however often it is registered. It does not decide that these steps compose to the right "
+         "lattice for every partial presentation (weight sort, direct-base extraction, closure are algorithms over run-time data).",
     design_ref="DESIGN.md section 4, C08")
 CLAIMED["C14"] = dict(engine="yast+yir+e3",
     technique="AST who-may-reference rule over policy keys of statics and functions; IR effect-set disjointness; type-checker witnesses for rebind/replace/remove",
     text="Decides isolation structurally: every mutable static of the library is keyed by a policy type; no function keyed by policy A references a "
          "static or function keyed by an unrelated policy B (nine policies over the same classes in one unit); the globals A's call path touches are "
          "disjoint from those update<B> writes; rebind/replace/remove re-key every facet, inherit nothing keyed by the old policy and yield distinct "
-         "static objects (catalogs, dispatch data, hash parameters, v-table pointers, handlers).",
+         "static objects (catalogs, dispatch data, hash parameters, v-table pointers, handlers); with a configured YOMM2_DEFAULT_POLICY every API "
+         "given no policy (class lists, methods, macros, virtual_ptr, final, update) resolves to that one policy.",
     design_ref="DESIGN.md section 4, C14")
 CLAIMED["C11"] = dict(engine="e3+yast+yir",
     technique="type-checker witnesses (cast result types, static/dynamic choice, must-compile / must-fail programs); AST cast-kind rule; IR copy/move-constructor scan",
@@ -170,7 +174,8 @@ CLAIMED["C19"] = dict(engine="yast",
     text="Decides the second sentence of the property only (which words of a type description are skipped and which are kept): the keyword table holds "
          "every keyword a demangled type description can contain (fundamental types incl. the wide character types, cv-qualifiers, elaborated-type "
          "keywords - a reasoned list in the checker); a matched word is dropped only as a template name, a non-identifier, a word of that table or "
-         "a std:: / yorel:: entity (prefixes with the scope operator), and every other word is recorded unconditionally; detail::starts_with is "
+         "a std:: / yorel:: entity (prefixes with the scope operator), and every other word is recorded unconditionally; the name pattern (a literal, "
+         "interpreted over sample texts) matches whole words only; detail::starts_with is "
          "'begins with'; the writer's two namespace-closing loops agree (one brace per scope operator). Does NOT decide the rest of the writer: balance of the namespace braces, one declaration per class, exactly its namespace (a string "
          "algorithm over run-time characters). One defect found and repaired (F16).",
     design_ref="DESIGN.md section 4, C19")
